@@ -193,7 +193,7 @@ func (s *Session) tableObligations(prop string) []*Obligation {
 		return out
 	}
 	byOp := map[int][]policyPat{1: pol.Exempt, 3: pol.FieldName, 6: pol.Namespace, 0: pol.Pipeline}
-	propsOf := map[int][]string{1: {"C01", "C02"}, 3: {"C01", "C02"}, 6: {"C01", "C12"}, 0: {"C01"}}
+	propsOf := map[int][]string{1: {"C01", "C02", "C15"}, 3: {"C01", "C02", "C15"}, 6: {"C01", "C12"}, 0: {"C01"}}
 	entryOp := map[string]int{}
 	keyOps := map[string]map[int]bool{} // key name -> set of operator types it is mapped to anywhere
 	for _, e := range td.Entries {
